@@ -398,7 +398,9 @@ fn gen_history(t: &mut Tape) -> Vec<Op> {
     // costs ~16 MB of serialisation the first time: big histories are rarer and hold at most
     // three big messages)
     let mut big_left = if scale >= 62 { 3 } else { 0 };
-    let n = if scale >= 56 && scale < 60 { 40 + t.draw(360) } else { 1 + t.draw(30) };
+    // one history in a thousand is very long: about 2^16 operations on one connection
+    let wide = scale == 55 && t.draw(16) == 15;
+    let n = if wide { 65_300 + t.draw(500) } else if scale >= 56 && scale < 60 { 40 + t.draw(360) } else { 1 + t.draw(30) };
     let bad_rate = [0usize, 1, 3][t.draw(3)];
     // half of the histories stay with enqueue/send/flush on the connection itself; the others also
     // build chains, go through `write_mut()` and take the connection apart and together again
@@ -408,7 +410,7 @@ fn gen_history(t: &mut Tape) -> Vec<Op> {
     for _ in 0..n {
         let bad = t.chance(bad_rate, 12);
         let msg = if bad {
-            let len = [0, st.free().saturating_sub(8), st.free() + 10, t.draw(600)][t.draw(4)];
+            let len = if wide { t.draw(200) } else { [0, st.free().saturating_sub(8), st.free() + 10, t.draw(600)][t.draw(4)] };
             if t.draw(2) == 0 {
                 Msg::BadKey { len }
             } else {
@@ -416,7 +418,13 @@ fn gen_history(t: &mut Tape) -> Vec<Op> {
             }
         } else {
             let m = gen_good(t);
-            aim(t, m, &st, &mut big_left)
+            if wide {
+                // (sizes aimed at the free space would make the buffer, and with it the next aimed
+                // size, grow with every message: 2^16 of those is terabytes)
+                m.with_wire_len(t.draw(160))
+            } else {
+                aim(t, m, &st, &mut big_left)
+            }
         };
         let op = match t.draw(if api_mix { 8 } else { 5 }) {
             0 | 1 => Op::Enqueue(msg),
@@ -662,7 +670,7 @@ impl Prop for Outbound {
                 w.pipes[wr].write_err_from = Some(k);
                 w.pipes[wr].write_err_until = Some(k + 1);
             }
-            w.step_cap = 200_000;
+            w.step_cap = 200_000 + 40 * ops.len() as u64;
             (rd, wr)
         };
         if want_sample || world.borrow().want_sample {
@@ -754,7 +762,7 @@ impl Prop for Outbound {
                                 expect_write = true;
                             }
                         }
-                        (Some(Err(zlink_core::Error::Io(_))), false) if flushes => {
+                        (Some(Err(zlink_core::Error::Io(_) | zlink_core::Error::SocketWrite)), false) if flushes => {
                             write_failed = true;
                             if let Some(m) = msg {
                                 pending.push(m.expected());
